@@ -400,127 +400,132 @@ func runC08(c *Ctx) {
 
 	// R5 dual merge
 	c.Rule("R5")
-	{
-		f := c.Fn("(*dht/dual.DHT).FindProvidersAsync")
-		info := f.Info()
-		count := paramObj(f, "count")
-		var outCh, zero, cancel eng.Object
-		f.Walk(func(n ast.Node) bool {
-			as, ok := n.(*ast.AssignStmt)
-			if !ok {
-				return true
+	c08Dual(c)
+}
+
+// c08Dual: the merged provider stream of the dual client.
+func c08Dual(c *Ctx) {
+	p := c.P
+
+	f := c.Fn("(*dht/dual.DHT).FindProvidersAsync")
+	info := f.Info()
+	count := paramObj(f, "count")
+	var outCh, zero, cancel eng.Object
+	f.Walk(func(n ast.Node) bool {
+		as, ok := n.(*ast.AssignStmt)
+		if !ok {
+			return true
+		}
+		if len(as.Rhs) == 1 {
+			if isMake, _ := eng.MakeChan(info, as.Rhs[0]); isMake && outCh == nil {
+				outCh = eng.ObjOf(info, as.Lhs[0])
 			}
-			if len(as.Rhs) == 1 {
-				if isMake, _ := eng.MakeChan(info, as.Rhs[0]); isMake && outCh == nil {
-					outCh = eng.ObjOf(info, as.Lhs[0])
+			if b, isB := eng.Unparen(as.Rhs[0]).(*ast.BinaryExpr); isB && b.Op == token.EQL && eng.IsObj(info, b.X, count) && isConstVal(info, b.Y, 0) {
+				zero = eng.ObjOf(info, as.Lhs[0])
+			}
+			if _, isWC := eng.IsCallTo(info, as.Rhs[0], "context.WithCancel"); isWC && len(as.Lhs) == 2 {
+				cancel = eng.ObjOf(info, as.Lhs[1])
+			}
+		}
+		return true
+	})
+	c.Anchor(outCh != nil && zero != nil && cancel != nil, "dual.FindProvidersAsync: outCh/zeroCount/cancel not identified")
+	sends := f.SendsOn(outCh)
+	c.Check(K(f.Name, "sends"), f.Pos(), len(sends) == 1, "the merger yields in one place", "found "+itoa(len(sends)))
+	for _, s := range sends {
+		g := s.F
+		gi := g.Info()
+		gcf := g.CFG()
+		loc := gcf.LocOf(s.Send)
+		// not already found: nearest assignment of the tested variable is a lookup in a map keyed by the sent value's ID
+		var foundMap eng.Object
+		okNew, _ := gcf.Guarded(loc, func(ft eng.Fact) bool {
+			o, truth, isB := ft.BoolVar()
+			if !isB || truth {
+				return false
+			}
+			rhs, idx := gcf.LastAssign(ft.B, o)
+			ix, isIx := eng.Unparen(defOrNil(rhs)).(*ast.IndexExpr)
+			if !isIx || idx != 1 {
+				return false
+			}
+			if rootObj(gi, ix.Index) != rootObj(gi, s.Send.Value) {
+				return false
+			}
+			foundMap = eng.ObjOf(gi, ix.X)
+			return foundMap != nil
+		})
+		c.Check(K(g.Name, "yield only unseen"), s.Send.Pos(), okNew, "a provider is yielded at most once", "send not guarded by absence from the found set")
+		at := func(leaf ast.Expr) (string, bool, bool) {
+			if eng.IsObj(gi, leaf, zero) {
+				return "zeroCount", true, true
+			}
+			a, op, b, ok := cmpNorm(leaf)
+			if ok && eng.IsObj(gi, a, count) && isConstVal(gi, b, 0) {
+				switch op {
+				case token.GTR:
+					return "countPos", true, true
+				case token.LEQ:
+					return "countPos", false, true
 				}
-				if b, isB := eng.Unparen(as.Rhs[0]).(*ast.BinaryExpr); isB && b.Op == token.EQL && eng.IsObj(info, b.X, count) && isConstVal(info, b.Y, 0) {
-					zero = eng.ObjOf(info, as.Lhs[0])
+			}
+			return "", false, false
+		}
+		okCnt := gcf.ImpliedAt(loc, at, []string{"zeroCount", "countPos"}, func(v map[string]bool) bool { return v["zeroCount"] || v["countPos"] })
+		c.Check(K(g.Name, "yield only while count left"), s.Send.Pos(), okCnt, "a provider is yielded only while `zeroCount || count > 0`", "the loop condition does not imply that (e.g. `>=`)")
+		// same arm records and decrements
+		cc := p.EnclosingSelectClause(s.Send)
+		rec, dec := false, false
+		if cc != nil {
+			for _, st := range cc.Body {
+				switch x := st.(type) {
+				case *ast.AssignStmt:
+					if ix, ok := eng.Unparen(x.Lhs[0]).(*ast.IndexExpr); ok && foundMap != nil && eng.IsObj(gi, ix.X, foundMap) && rootObj(gi, ix.Index) == rootObj(gi, s.Send.Value) {
+						rec = true
+					}
+					if x.Tok == token.SUB_ASSIGN && eng.IsObj(gi, x.Lhs[0], count) && isConstVal(gi, x.Rhs[0], 1) {
+						dec = true
+					}
+				case *ast.IncDecStmt:
+					if x.Tok == token.DEC && eng.IsObj(gi, x.X, count) {
+						dec = true
+					}
 				}
-				if _, isWC := eng.IsCallTo(info, as.Rhs[0], "context.WithCancel"); isWC && len(as.Lhs) == 2 {
-					cancel = eng.ObjOf(info, as.Lhs[1])
+			}
+		}
+		c.Check(K(g.Name, "records and counts the yield"), s.Send.Pos(), rec && dec, "a yielded provider is recorded as found and counted in the same select arm", "recorded="+btoa(rec)+" counted="+btoa(dec))
+		// defers
+		var dClose, dCancel []eng.Loc
+		g.Walk(func(n ast.Node) bool {
+			if d, ok := n.(*ast.DeferStmt); ok {
+				if eng.NameIn(eng.CalleeName(gi, d.Call), "builtin.close") && eng.IsObj(gi, d.Call.Args[0], outCh) {
+					dClose = append(dClose, gcf.LocOf(d))
+				}
+				if eng.IsObj(gi, d.Call.Fun, cancel) {
+					dCancel = append(dCancel, gcf.LocOf(d))
 				}
 			}
 			return true
 		})
-		c.Anchor(outCh != nil && zero != nil && cancel != nil, "dual.FindProvidersAsync: outCh/zeroCount/cancel not identified")
-		sends := f.SendsOn(outCh)
-		c.Check(K(f.Name, "sends"), f.Pos(), len(sends) == 1, "the merger yields in one place", "found "+itoa(len(sends)))
-		for _, s := range sends {
-			g := s.F
-			gi := g.Info()
-			gcf := g.CFG()
-			loc := gcf.LocOf(s.Send)
-			// not already found: nearest assignment of the tested variable is a lookup in a map keyed by the sent value's ID
-			var foundMap eng.Object
-			okNew, _ := gcf.Guarded(loc, func(ft eng.Fact) bool {
-				o, truth, isB := ft.BoolVar()
-				if !isB || truth {
-					return false
-				}
-				rhs, idx := gcf.LastAssign(ft.B, o)
-				ix, isIx := eng.Unparen(defOrNil(rhs)).(*ast.IndexExpr)
-				if !isIx || idx != 1 {
-					return false
-				}
-				if rootObj(gi, ix.Index) != rootObj(gi, s.Send.Value) {
-					return false
-				}
-				foundMap = eng.ObjOf(gi, ix.X)
-				return foundMap != nil
-			})
-			c.Check(K(g.Name, "yield only unseen"), s.Send.Pos(), okNew, "a provider is yielded at most once", "send not guarded by absence from the found set")
-			at := func(leaf ast.Expr) (string, bool, bool) {
-				if eng.IsObj(gi, leaf, zero) {
-					return "zeroCount", true, true
-				}
-				a, op, b, ok := cmpNorm(leaf)
-				if ok && eng.IsObj(gi, a, count) && isConstVal(gi, b, 0) {
-					switch op {
-					case token.GTR:
-						return "countPos", true, true
-					case token.LEQ:
-						return "countPos", false, true
-					}
-				}
-				return "", false, false
-			}
-			okCnt := gcf.ImpliedAt(loc, at, []string{"zeroCount", "countPos"}, func(v map[string]bool) bool { return v["zeroCount"] || v["countPos"] })
-			c.Check(K(g.Name, "yield only while count left"), s.Send.Pos(), okCnt, "a provider is yielded only while `zeroCount || count > 0`", "the loop condition does not imply that (e.g. `>=`)")
-			// same arm records and decrements
-			cc := p.EnclosingSelectClause(s.Send)
-			rec, dec := false, false
-			if cc != nil {
-				for _, st := range cc.Body {
-					switch x := st.(type) {
-					case *ast.AssignStmt:
-						if ix, ok := eng.Unparen(x.Lhs[0]).(*ast.IndexExpr); ok && foundMap != nil && eng.IsObj(gi, ix.X, foundMap) && rootObj(gi, ix.Index) == rootObj(gi, s.Send.Value) {
-							rec = true
-						}
-						if x.Tok == token.SUB_ASSIGN && eng.IsObj(gi, x.Lhs[0], count) && isConstVal(gi, x.Rhs[0], 1) {
-							dec = true
-						}
-					case *ast.IncDecStmt:
-						if x.Tok == token.DEC && eng.IsObj(gi, x.X, count) {
-							dec = true
-						}
-					}
-				}
-			}
-			c.Check(K(g.Name, "records and counts the yield"), s.Send.Pos(), rec && dec, "a yielded provider is recorded as found and counted in the same select arm", "recorded="+btoa(rec)+" counted="+btoa(dec))
-			// defers
-			var dClose, dCancel []eng.Loc
-			g.Walk(func(n ast.Node) bool {
-				if d, ok := n.(*ast.DeferStmt); ok {
-					if eng.NameIn(eng.CalleeName(gi, d.Call), "builtin.close") && eng.IsObj(gi, d.Call.Args[0], outCh) {
-						dClose = append(dClose, gcf.LocOf(d))
-					}
-					if eng.IsObj(gi, d.Call.Fun, cancel) {
-						dCancel = append(dCancel, gcf.LocOf(d))
-					}
-				}
+		ok1, _ := gcf.MustPass(gcf.Entry(), eng.LocSet(gcf.Exits(false)...), eng.LocSet(dClose...))
+		ok2, _ := gcf.MustPass(gcf.Entry(), eng.LocSet(gcf.Exits(false)...), eng.LocSet(dCancel...))
+		c.Check(K(g.Name, "defer close(outCh)"), g.Pos(), ok1 && len(dClose) == 1, "the merged channel is closed on every exit", "deferred close missing or registered late")
+		c.Check(K(g.Name, "defer cancel()"), g.Pos(), ok2 && len(dCancel) == 1, "the inner searches are cancelled when the merger ends", "deferred cancel missing or registered late")
+	}
+	// both inner searches get the same count and the cancellable context
+	for _, name := range []string{"WAN", "LAN"} {
+		n := 0
+		f.Walk(func(x ast.Node) bool {
+			call, ok := x.(*ast.CallExpr)
+			if !ok || eng.CalleeName(info, call) != "(*dht.IpfsDHT).FindProvidersAsync" {
 				return true
-			})
-			ok1, _ := gcf.MustPass(gcf.Entry(), eng.LocSet(gcf.Exits(false)...), eng.LocSet(dClose...))
-			ok2, _ := gcf.MustPass(gcf.Entry(), eng.LocSet(gcf.Exits(false)...), eng.LocSet(dCancel...))
-			c.Check(K(g.Name, "defer close(outCh)"), g.Pos(), ok1 && len(dClose) == 1, "the merged channel is closed on every exit", "deferred close missing or registered late")
-			c.Check(K(g.Name, "defer cancel()"), g.Pos(), ok2 && len(dCancel) == 1, "the inner searches are cancelled when the merger ends", "deferred cancel missing or registered late")
-		}
-		// both inner searches get the same count and the cancellable context
-		for _, name := range []string{"WAN", "LAN"} {
-			n := 0
-			f.Walk(func(x ast.Node) bool {
-				call, ok := x.(*ast.CallExpr)
-				if !ok || eng.CalleeName(info, call) != "(*dht.IpfsDHT).FindProvidersAsync" {
-					return true
-				}
-				if s, ok := eng.Unparen(call.Fun).(*ast.SelectorExpr); ok && eng.IsField(info, s.X, "dht/dual.DHT."+name) {
-					n++
-					c.Check(K(f.Name, name+" count"), call.Pos(), len(call.Args) == 3 && eng.IsObj(info, call.Args[2], count), "each inner search is bounded by the same count", "count argument differs")
-				}
-				return true
-			})
-			c.Check(K(f.Name, name+" searched"), f.Pos(), n == 1, "the "+name+" DHT is searched", "found "+itoa(n)+" calls")
-		}
+			}
+			if s, ok := eng.Unparen(call.Fun).(*ast.SelectorExpr); ok && eng.IsField(info, s.X, "dht/dual.DHT."+name) {
+				n++
+				c.Check(K(f.Name, name+" count"), call.Pos(), len(call.Args) == 3 && eng.IsObj(info, call.Args[2], count), "each inner search is bounded by the same count", "count argument differs")
+			}
+			return true
+		})
+		c.Check(K(f.Name, name+" searched"), f.Pos(), n == 1, "the "+name+" DHT is searched", "found "+itoa(n)+" calls")
 	}
 }
